@@ -186,3 +186,9 @@ func crc32Twin(s []byte, at int) []byte {
 	}
 	return t
 }
+
+// soloWorkers: in the checks that run their cases on parallel workers, the first few workers run one at a
+// time. A defect that lives in process-wide state (a memo of "the last verified signature", a pooled
+// buffer) is disturbed by whatever the other workers do between two calls of one sequence; run alone,
+// the reused-buffer and call-sequence monitors of those workers see it deterministically.
+const soloWorkers = 6
